@@ -1,0 +1,26 @@
+//go:build verif
+
+// Package verifhooks re-exports internal packages to an external verification harness (build tag "verif").
+package verifhooks
+
+import (
+	"time"
+
+	"github.com/aptpod/iscp-go/internal/segment"
+)
+
+type (
+	SegmentSender      = segment.Sender
+	SegmentReadBuffers = segment.ReadBuffers
+	SegmentReadBuffer  = segment.ReadBuffer
+)
+
+func SegmentSendTo(wr segment.Sender, seqNum uint32, payload []byte) (int, error) {
+	return segment.SendTo(wr, seqNum, payload)
+}
+
+func SegmentSetMaxPayloadSize(size int) (restore func()) { return segment.VerifSetMaxPayloadSize(size) }
+func SegmentMaxPayloadSize() int                         { return segment.VerifMaxPayloadSize() }
+func SegmentSetTimeNow(f func() time.Time) (restore func()) {
+	return segment.VerifSetTimeNow(f)
+}
